@@ -379,6 +379,9 @@ func energySuite(seed uint64, tier, outDir string) (*core.Result, error) {
 		{"file.bare-quote", tsAt(0) + ",100\n" + tsAt(300) + ",5\"6\n" + tsAt(600) + ",100\n"},
 		{"file.crlf", "timestamp,energy (mWh)\r\n" + tsAt(0) + ",100\r\n" + tsAt(300) + ",200\r\n"},
 		{"file.duplicate-slot", tsAt(0) + ",100\n" + tsAt(1) + ",200\n" + tsAt(299) + ",300\n"},
+		// several DIFFERENT unparseable fields of a few hundred bytes each (every one is written to the client's
+		// bounded event log): skipped rows / sentinel 3, never a crash
+		{"file.long-garbage-fields", tsAt(0) + "," + strings.Repeat("7", 400) + "x\n" + tsAt(300) + "," + strings.Repeat("8", 430) + "y\n" + strings.Repeat("q", 380) + ",5\n" + tsAt(600) + "," + strings.Repeat("9", 460) + "z\n" + strings.Repeat("w", 300) + ",6\n" + tsAt(900) + ",100\n"},
 	}
 
 	// ---- corpus first (minimized past failures)
@@ -606,7 +609,7 @@ func energySuite(seed uint64, tier, outDir string) (*core.Result, error) {
 		"ct_case", ctItems, "ct_mismatches"); err != nil {
 		return nil, err
 	}
-	res.Required = append(res.Required, "file.header-standard", "file.header-missing", "file.single-column", "file.quoted", "file.wrong-column-count",
+	res.Required = append(res.Required, "file.long-garbage-fields", "file.header-standard", "file.header-missing", "file.single-column", "file.quoted", "file.wrong-column-count",
 		"file.huge", "file.negative", "file.scientific", "file.nan-inf", "file.before-genesis", "file.far-future", "file.thresholds", "file.generated",
 		"ct.absent", "ct.valid", "ct.malformed", "ct.zero-divider", "ct.negative-multiplier", "ct.unreadable",
 		"value.scaled", "value.negative", "value.fractional", "value.unspecified", "csv-stop.eof", "csv-stop.csv-error")
